@@ -83,7 +83,7 @@ Definition parse_header (boc : bytes) : res header :=
     match cfg with
     | None => Err EParse
     | Some (hasIdx, hasCrc, hasCache, size) =>
-      if short (1 + 5 * size) boc1 then Err EParse else
+      if short (1 + 3 * size) boc1 then Err EParse else
       match boc1 with
       | [] => Panic PIndex
       | ob :: boc2 =>
